@@ -61,6 +61,8 @@ VERDICT = {
     ("launchpad-common/src/random.rs", 86): "inside Random::hash_seed, whose body is replaced by the typed-handle hook on the debug VM (trusted base)",
     ("launchpad-guaranteed-tickets/src/token_release.rs", 119): "equivalent (when equal the clamp changes nothing)",
     ("launchpad-common/src/winner_selection.rs", 52): "equivalent (the branch rewrites an unchanged batch with the same values)",
+    ("launchpad-with-nft/src/confirm_nft.rs", 34): "equivalent: the owner's withdrawal endpoint checks the claim period before it reaches this helper",
+    ("launchpad-with-nft/src/mystery_sft.rs", 76): "SFT set-up flags: partial set-up states are not modelled (documented limit)",
     ("launchpad-guaranteed-tickets/src/token_release.rs", 56): "GAP at the time of the sweep (v1 schedule change exactly at the confirmation start round), now killed by C13 and C17 with a concrete input",
 }
 for r in surv:
